@@ -38,7 +38,7 @@ def run_tlc(module, cfg, env=None, workers=1, extra=(), timeout=1800, metadir=No
     md = metadir or tempfile.mkdtemp(prefix="tlcmd-", dir="/dev/shm" if os.path.isdir("/dev/shm") else None)
     # java is started directly (not through the tlc wrapper) so that -Xss also applies to the main
     # thread, in which TLC evaluates ASSUMEs, initial states and their invariants
-    cmd = ["timeout", str(timeout), "java", "-Xss512m", "-Xmx" + xmx, "-XX:+UseParallelGC", "-XX:ParallelGCThreads=2", "-XX:CICompilerCount=2",
+    cmd = ["timeout", str(timeout), "java", "-Xss512m", "-Xms64m", "-Xmx" + xmx, "-XX:+UseParallelGC", "-XX:ParallelGCThreads=2", "-XX:CICompilerCount=2",
            "-cp", "/opt/veriftools/tla/tla2tools.jar:/opt/veriftools/tla/CommunityModules-deps.jar", "tlc2.TLC",
            "-workers", str(workers), "-metadir", md, "-config", cfg] + list(extra) + [module]
     t0 = time.time()
